@@ -67,6 +67,9 @@ func c02Devs() []c02Dev {
 		c.Subject = "CN=a, OU=b, O=c, L=d, ST=e, C=DE, SERIALNUMBER=12, 1.2.3.4=custom"
 	})
 	add("subject", "non-ascii", func(c *refcfg.CertCfg, _ *c02Aux) { c.Subject = "CN=Zoë Ünïcode 日本, O=Örg" })
+	add("subject", "outside-printable-repertoire", func(c *refcfg.CertCfg, _ *c02Aux) {
+		c.Subject = "CN=under_score@host!, 1.2.3.4=my_attr@x, 2.5.4.97=Zoë*, SERIALNUMBER=a&b, C=DE"
+	})
 	// validity around the UTCTime / GeneralizedTime switch
 	for _, v := range [][2]string{{"1950-01-01", "1951-01-01"}, {"1999-12-12", "2049-12-12"}, {"2049-12-31", "2050-01-01"}, {"2050-01-01", "2051-01-01"}, {"2049-11-11", "2200-12-12"}, {"2100-02-02", "2200-12-31"}} {
 		v := v
